@@ -213,6 +213,36 @@ def case_two_contracts(seed, idx, res):
     res["distinct"].append(f"two:{idx}")
 
 
+def case_setup_loop(seed, idx, res):
+    """the cut happens inside the setUp transaction: setUpSymbolic(n) loops n times (symbolic trip count), requires at least L iterations and
+    stores n; check_small() asserts stored <= L.  With --loop L only n == L survives setUp, so a PASS of check_small() is only sound if the
+    loop bound hit in setUp is reported (n = L + 1 breaks the test)."""
+    rng = random.Random(f"c10-{seed}-setup-{idx}")
+    L = rng.choice([1, 2, 3])
+    n0 = A.arg(0)
+    loop = n0 + [0, ":top", "DUP2", "DUP2", "LT", "ISZERO", "@done", "JUMPI", 1, "ADD", "@top", "JUMP", ":done"]  # stack: n i   (i counts up to n)
+    body = loop + ["DUP1", L, "GT", "@short", "JUMPI", "POP", 0, "SSTORE", "STOP", ":short", 0, 0, "REVERT"]     # require(i >= L); stored = n
+    setup = A.Fn("setUpSymbolic", [("n", U)], body)
+    test = A.Fn("check_small", [], [0, "SLOAD", L, "LT", "@bad", "JUMPI", "STOP", ":bad"] + A.panic(1))  # fails iff stored > L
+    spec = A.ContractSpec(f"S{idx}", [setup, test], filename=f"S{idx}.sol")
+    out = A.run(A.make_ctx(spec, funsigs=[test.sig], overrides=dict(loop=L)))
+    res["counters"]["evaluations"] += 1
+    res["counters"]["setup_loop_cases"] += 1
+    if out.exception or not out.results:
+        res["counters"]["setup_loop_no_result"] += 1
+        return
+    r = out.results[0]
+    ws = out.warnings()
+    reported = [w for w in ws if "loop unrolling bound" in w or "incomplete" in w or "not been fully explored" in w]
+    res["distinct"].append(f"setup-loop:{idx}")
+    res["counters"]["cut_events_possible"] += 1
+    if reported:
+        res["counters"]["warnings_captured"] += 1
+    if r.exitcode == 0 and not reported:
+        res["violations"].append(dict(what="clean PASS although the loop bound cut the exploration of setUp (a larger trip count breaks the test)", key="silent-cut:setup-loop",
+                                      index=idx, mode="setup-loop", loop=L, exitcode=r.exitcode, warnings=ws[:3]))
+
+
 def worker(task):
     _imports()
     kind, lo, hi, seed = task
@@ -222,6 +252,8 @@ def worker(task):
             case_regular(seed, idx, res)
         elif kind == "inv":
             case_invariant(seed, idx, res)
+        elif kind == "setup":
+            case_setup_loop(seed, idx, res)
         else:
             case_two_contracts(seed, idx, res)
     return res
@@ -237,7 +269,7 @@ def main():
     if run.replay:
         w = json.load(open(run.replay))["witness"]
         res = new_result()
-        {"regular": case_regular, "invariant": case_invariant}.get(w.get("mode"), case_two_contracts)(run.seed, w["index"], res)
+        {"regular": case_regular, "invariant": case_invariant, "setup-loop": case_setup_loop}.get(w.get("mode"), case_two_contracts)(run.seed, w["index"], res)
         run.merge(res)
         run.finish()
     tasks = []
@@ -246,12 +278,14 @@ def main():
     m = run.n(24, 600)
     tasks += [("inv", lo, min(m, lo + 2), run.seed) for lo in range(0, m, 2)]
     tasks += [("two", i, i + 1, run.seed) for i in range(run.n(4, 40))]
+    tasks += [("setup", i, i + 2, run.seed) for i in range(0, run.n(8, 100), 2)]
     run_pool(run, worker, tasks, soft_timeout=900)
     run.require("tests", 150)
     run.require("cut_events_possible", 30)
     run.require("warnings_captured", 20)
     run.require("invariant_cut_events_possible", 5)
     run.require("unsupported_feature_tests", 10)
+    run.require("setup_loop_cases", 6)
     run.finish()
 
 
